@@ -59,22 +59,15 @@ def parseCall (j : Json) : R CallRec := do
 def parseWake (j : Json) : R (List (Nat × List Ext)) := do
   (← arr j).mapM (fun b => do return (← fldNat b "d", ← (← fldArr b "x").mapM parseExt))
 
-def mkEnv (advs : Array Nat) (calls : Array CallRec) (wakes : Array (List (Nat × List Ext))) : Env where
+def mkEnv (advs : Array Nat) (calls : Array CallRec) (wakes : Array (List (Nat × List Ext)))
+    (gaps : Array (List Ext)) : Env where
   adv k := advs.getD k 0
   dur k := (calls.getD k default).d
   out k := (calls.getD k default).out
   touch k := (calls.getD k default).touch
   ext k := (calls.getD k default).ext
   wake k := wakes.getD k []
-
-def parseMod (j : Json) : R (Mod × List (Nat × Nat)) := do
-  let iv ← fldNat j "interval"
-  let stamps ← (← fldArr j "stamps").mapM (fun x => do
-    match (← arr x) with
-    | [p, s] => return (← p.getNat?, ← s.getNat?)
-    | _ => throw "bad stamp")
-  return (⟨← fldBool j "enabled", ← fldNat j "slow", ← fldNats j "polled", ← fldNat j "pollinterval", iv, false, 0, 0, 0⟩,
-          stamps)
+  gap k := gaps.getD k []
 
 def initStamp (ms : List (List (Nat × Nat))) : Nat → Nat → Nat :=
   fun m p => match ms[m]? with
@@ -94,12 +87,44 @@ def loopTurns (env : Env) (nReads : Nat) : Nat → PollState → Array Event →
                      jarr (σ.mods.map (fun m => jarr [jnat m.interval, jnat m.lastMain, jnat m.lastSlow]))]
       loopTurns env nReads fuel r.σ (acc ++ r.evs.toArray) (dbg.push d)
 
-def parseModInfo (j : Json) : R ModInfo := do
-  let ivs ← (← fldArr j "intervals").mapM (fun x => do
+/-- `["pi", t, v]` = `pollinterval := v` at `t`, `["fp", t, flag, v]` = `setFastPoll(flag, v)` at `t` -/
+def parseCmd (j : Json) : R Cmd := do
+  match (← arr j) with
+  | [.str "pi", t, v] => return .setInterval (← t.getNat?) (← v.getNat?)
+  | [.str "fp", t, fl, v] => return .setFast (← t.getNat?) (← fl.getBool?) (← v.getNat?)
+  | _ => throw s!"bad cmd {j.compress}"
+
+/-- `[kind, inner, outer]`, kind one of `none plain handler commonFirst commonRest` -/
+def parseDecl (j : Json) : R PollFlags.Decl := do
+  match (← arr j) with
+  | [.str k, i, o] =>
+    let kind ← match k with
+      | "none" => pure PollFlags.Kind.none | "plain" => pure .plain | "handler" => pure .handler
+      | "commonFirst" => pure .commonFirst | "commonRest" => pure .commonRest
+      | _ => throw s!"bad kind {k}"
+    return ⟨kind, ← i.getBool?, ← o.getBool?⟩
+  | _ => throw s!"bad decl {j.compress}"
+
+def parseMod (j : Json) : R (Mod × List (Nat × Nat)) := do
+  let iv ← fldNat j "interval"
+  let stamps ← (← fldArr j "stamps").mapM (fun x => do
     match (← arr x) with
-    | [t, i] => return (← t.getNat?, ← i.getNat?)
-    | _ => throw "bad interval entry")
-  return ⟨← fldBool j "enabled", ← fldNat j "slow", ← fldNats j "polled", ivs⟩
+    | [p, s] => return (← p.getNat?, ← s.getNat?)
+    | _ => throw "bad stamp")
+  -- the polled parameters are those the model of the poll flag computation yields for the declared read functions
+  let en ← fldBool j "enabled"
+  let decls ← (← fldArr j "decls").mapM parseDecl
+  let pi ← fldNat j "pollinterval"
+  if iv ≠ pi then throw "a thread starts with PollInfo.interval = pollinterval"
+  return (startMod en (← fldNat j "slow") (if en then PollFlags.polledIdx 0 decls else []) pi, stamps)
+
+/-- the parameters the poller may read are computed by the specification (`mayPoll`) from how the class declares
+its read functions; a module with polling disabled has none -/
+def parseModInfo (j : Json) : R ModInfo := do
+  let en ← fldBool j "enabled"
+  let decls ← (← fldArr j "decls").mapM parseDecl
+  return ⟨en, ← fldNat j "slow", if en then mayPoll 0 decls else [], ← fldNat j "pollinterval",
+          ← (← fldArr j "cmds").mapM parseCmd⟩
 
 def parseTrace (j : Json) : R Trace := do
   return { mods := ← (← fldArr j "mods").mapM parseModInfo
@@ -145,10 +170,9 @@ def handle (j : Json) : R Json := do
     let advs ← fldNats j "adv"
     let calls ← (← fldArr j "calls").mapM parseCall
     let wakes ← (← fldArr j "waits").mapM parseWake
-    let env := mkEnv advs.toArray calls.toArray wakes.toArray
-    let σ0 : PollState := { clock := ← fldNat j "clock", nRead := 0, nCall := 0, nWait := 0, trig := false,
-                            mods := ms.map (·.1), toPoll := none, stamp := initStamp (ms.map (·.2)),
-                            refreshed := initStamp (ms.map (·.2)) }
+    let gaps ← (← fldArr j "gaps").mapM (fun g => do (← arr g).mapM parseExt)
+    let env := mkEnv advs.toArray calls.toArray wakes.toArray gaps.toArray
+    let σ0 : PollState := startState (← fldNat j "clock") (ms.map (·.1)) (initStamp (ms.map (·.2)))
     let p := prologue consts env σ0
     let (σ, evs, dbg) := loopTurns env advs.length (advs.length + 1) p.σ p.evs.toArray #[]
     let wantDbg := (j.getObjVal? "debug").toOption.isSome
@@ -165,9 +189,15 @@ def handle (j : Json) : R Json := do
                        ("alive", Json.bool a), ("nopoll", Json.bool n), ("main_gap", Json.bool g),
                        ("slow_refresh", Json.bool s),
                        ("sweep", jnat (sweepOf tr)), ("npolled", jnat (nPolled tr.mods)),
+                       ("intervals", jarr (tr.mods.map (fun mi => jarr (mi.intervals.map (fun e => jarr [jnat e.1, jnat e.2]))))),
                        ("bad_main", jarr (if g then [] else worstMain tr)),
                        ("bad_slow", jarr (if s then [] else worstSlow tr)),
                        ("bad_nopoll", jarr (if n then [] else badNoPoll tr))]
+  | "flags" =>
+    -- model of the poll flag computation: one Boolean per declared parameter
+    let decls ← (← fldArr j "decls").mapM parseDecl
+    return Json.mkObj [("flags", jarr (decls.map (fun d => Json.bool (PollFlags.pollFlag d)))),
+                       ("polled", jarr ((PollFlags.polledIdx 0 decls).map jnat))]
   | _ => throw s!"C13: unknown verb {k}"
 
 end Frappy.Drive.C13
